@@ -4,7 +4,7 @@
 D="$1"; ID="$2"; N="${3:-}"
 cd /verif || exit 2
 if ! git -C /repo diff --quiet; then echo "/repo has uncommitted changes"; exit 2; fi
-git -C /repo apply "$D/patch.diff" || { echo "patch does not apply"; exit 2; }
+git -C /repo apply "$(cd /verif && realpath "$D")/patch.diff" || { echo "patch does not apply"; exit 2; }
 if [ -n "$N" ]; then EX="--examples $N"; else EX=""; fi
 PYTHONPATH=/repo:/verif /venv/bin/python -m fv.run "$ID" --tier quick --no-evidence $EX 2>&1 | grep -v "^KNOWN" | tail -4
 RC=$?
